@@ -9,6 +9,7 @@ import (
 	"github.com/jsightapi/jsight-schema-go-library/notations/jschema"
 	"github.com/jsightapi/jsight-schema-go-library/rules/enum"
 
+	"github.com/jsightapi/jsight-api-go-library/catalog"
 	"github.com/jsightapi/jsight-api-go-library/scanner"
 )
 
@@ -60,6 +61,31 @@ func libLen(kind string, content []byte) (out string) {
 	return fmt.Sprintf("ok %d", l)
 }
 
+// pathProps: the property names of a flat object schema (what a Path body declares), via the
+// schema library only
+func pathProps(body []byte) (out string) {
+	defer func() {
+		if r := recover(); r != nil {
+			out = "err"
+		}
+	}()
+	s, err := catalog.UnmarshalJSightSchema("", body, &catalog.UserSchemas{}, nil)
+	if err != nil || s.ContentJSight == nil || s.ContentJSight.TokenType != "object" {
+		return "err"
+	}
+	keys := make([]string, 0, len(s.ContentJSight.Children))
+	for _, c := range s.ContentJSight.Children {
+		if c.Key == nil || c.TokenType == "object" || c.TokenType == "array" {
+			return "err"
+		}
+		keys = append(keys, hxs(*c.Key))
+	}
+	if len(keys) == 0 {
+		return "err"
+	}
+	return "ok " + strings.Join(keys, ",")
+}
+
 func init() {
 	fnExtra["lex"] = func(a []string) string { return lexStream(unhex(a[0])) }
 	// the schema-library oracle used by the model runner (never calls repository code)
@@ -69,6 +95,9 @@ func init() {
 			parts := strings.Split(line, " ")
 			if len(parts) != 2 {
 				return "bad-request"
+			}
+			if parts[0] == "props" {
+				return pathProps(unhex(parts[1]))
 			}
 			return libLen(parts[0], unhex(parts[1]))
 		})
